@@ -3,7 +3,15 @@ from checks import common
 from checks.C06 import run_edits
 
 
+# The Layer-1 and Gibbs-move contracts are shared with C06 / C04.  C07 is about the SHAPE of the tree and the whereabouts of the data points;
+# obligations about the cached likelihood vectors (C06) or about move probabilities (C04) are those properties' and are not claimed here.
+NOT_C07 = (".log_p", ".log_r", "value-not-written", "add-list.step", "add-list.aliases", "update_node.", "graph.path.", "path-update", ".prior", "update.post-order",
+           "update.depth-first", "from_dict.update-last", "likelihood-change", ".pairing", "G3.selection", "G1.subtree-root-uniform", "G1G3", "G2G3", "assert[_update_path_to_root",
+           "index-in-range[root-path")
+
+
 def run(ctx):
+    ctx.vc_filter = lambda name, kind: not any(t in name for t in NOT_C07)
     try:
         from contracts import c06_layer1 as L
         from pyvc.source import Repo
@@ -20,7 +28,9 @@ def run(ctx):
     dsl.verify(ctx, repo, G.registry(), "C07.dp", G.DPS + ".sample_tree", G.h_dp, expect_covers=G.DP_COVERS)
     dsl.verify(ctx, repo, G.registry(), "C07.prg", G.PRG + ".sample_tree", G.h_prg, expect_covers=G.PRG_COVERS)
     ctx.trust(*G.registry().assumed)
-    ctx.extra["explanation"] = ("Deductive: the data-point and prune-regraft moves return a tree of their own candidate family (same data, the moved point in exactly one place). "
+    ctx.extra["explanation"] = ("Deductive: the structural Layer-1 contracts shared with C06 (index sets of the nodes, data lists, name <-> index maps, create_root_node rewiring, copy shares nothing, "
+                                "remove_subtree / add_subtree / relabelling keep maps, data lists and graph consistent, dictionary round trip); the data-point and prune-regraft moves return a tree of their own candidate family (same data, the moved point in exactly one place). "
+                                "Obligations about cached likelihood vectors and move probabilities are left to C06 / C04. "
                                 "Bounded: wf(tree) evaluated after every edit of the enumerated edit grammar and on every tree returned by every sampler on every random "
                                 "outcome (n<=3) and along seeded sweeps (n=6).")
     run_edits(ctx, "C07", only=["wf", "operation raised"])
